@@ -18,6 +18,46 @@ def L(t):
     return ["l", t]
 
 
+# permission modes of stale files in prior states of a destination (owner always keeps rw: the checks may run unprivileged)
+ODD_MODES = [0o654, 0o645, 0o611, 0o601, 0o610, 0o744, 0o700, 0o655, 0o664, 0o600, 0o656]
+
+
+def FB(runs, x=False):
+    """a large file given by runs [[byte, count], ...]; listed by the harness as ["fh", sha256, size, exec]"""
+    return ["fb", [list(r) for r in runs], x]
+
+
+def has_big(e):
+    if e is None:
+        return False
+    if e[0] == "d":
+        return any(has_big(c) for _, c in e[1])
+    return e[0] in ("fb", "fh")
+
+
+def digestify(e):
+    """files above the harness' listing threshold (1 MiB) in the form the harness lists them: ["fh", sha256, size, exec]"""
+    import hashlib
+    if e is None:
+        return None
+    if e[0] == "d":
+        return ["d", [[n, digestify(c)] for n, c in e[1]]]
+    if e[0] == "f" and len(e[1]) > (1 << 20):
+        return ["fh", hashlib.sha256(e[1].encode("latin-1")).hexdigest(), len(e[1]), e[2]]
+    return e
+
+
+def for_model(e):
+    """the model's view of an entry: an explicit permission mode becomes 'the owner may execute it'"""
+    if e is None:
+        return None
+    if e[0] == "d":
+        return ["d", [[n, for_model(c)] for n, c in e[1]]]
+    if e[0] == "f" and not isinstance(e[2], bool):
+        return ["f", e[1], bool(e[2] & 0o100)]
+    return e
+
+
 def proto(s):
     """python str -> protocol text (UTF-8 bytes as latin-1 code points)"""
     return s.encode("utf-8").decode("latin-1")
@@ -170,7 +210,8 @@ def mutate_tree(rng, t):
         elif c[0] == "f" and r < 0.4:
             es.append([n, F(c[1] + "X", c[2])])               # modified
         elif c[0] == "f" and r < 0.5:
-            es.append([n, F(c[1], not c[2])])                 # flipped executable bit only
+            # flipped executable bit only, or the same bytes under an unusual permission mode
+            es.append([n, F(c[1], not c[2]) if rng.random() < 0.6 else ["f", c[1], rng.choice(ODD_MODES)]])
         elif c[0] == "f" and r < 0.55:
             es.append([n, D(("inner", F("x")))])              # directory where a file should be
         elif c[0] == "d" and r < 0.3:
@@ -252,10 +293,14 @@ def workload(rng, k):
 def confirm_hang(ctx, req, has_hang, timeout_s=45):
     """A hang is reported only if it is reproducible: the same request is run once more, alone, with a longer timeout
     (a genuine deadlock is deterministic for a given fault plan; a stall on a loaded machine is not). At most three
-    confirmations per run: later hanging cases of a run are neither re-run nor reported (one replay per class suffices)."""
+    confirmation attempts and one confirmed hang per run: later hanging cases of a run are neither re-run nor reported (one
+    replay per class suffices)."""
     n = getattr(ctx, "_hang_confirmations", 0)
-    if n >= 3:
+    if n >= 3 or getattr(ctx, "_hang_confirmed", False):
         return False
     ctx._hang_confirmations = n + 1
     out = impl(ctx, [dict(req, timeout_s=timeout_s)])
-    return bool(out) and has_hang(out[0])
+    ok = bool(out) and has_hang(out[0])
+    if ok:
+        ctx._hang_confirmed = True      # one confirmed hang per run: the replay file of the class exists, later hanging cases are not re-run
+    return ok
